@@ -83,14 +83,17 @@ def main(argv):
             os.symlink(blob, path)
         except OSError:
             pass
+    # the processes also differ in their idea of local time: two of the zones are 26 hours apart, so their local dates always
+    # differ; and in locale settings
+    clock = [{'TZ': 'UTC', 'LC_ALL': 'C'}, {'TZ': 'AAA-14', 'LC_ALL': 'C.UTF-8'}, {'TZ': 'BBB12', 'LANG': 'en_US.UTF-8'}]
     for k, hs in enumerate(seeds):
         # every other process builds the cases in the opposite order: the output for a case must not depend on what the
         # process built before ("regardless of ... the process it runs in")
         if k % 2 == 1:
-            io, mo = BC.run_builds(cases[::-1], hashseed=hs, order_seed=1000 + k, twice=True, cwd=fsdir)
+            io, mo = BC.run_builds(cases[::-1], hashseed=hs, order_seed=1000 + k, twice=True, cwd=fsdir, extra_env=clock[k % len(clock)])
             io, mo = io[::-1], mo[::-1]
         else:
-            io, mo = BC.run_builds(cases, hashseed=hs, order_seed=1000 + k, twice=(k == 0))
+            io, mo = BC.run_builds(cases, hashseed=hs, order_seed=1000 + k, twice=(k == 0), extra_env=clock[k % len(clock)])
         runs.append(io)
         model = mo
     # content hashes by the Gallina MD5/UTF-8 model (op 603), one evaluation per distinct file contents
